@@ -13,8 +13,22 @@ from mc import wsh
 LIMIT = 64
 
 
+def padded_deflate(data, minlen):
+    """A valid RFC 7692 message payload of at least minlen bytes that inflates to `data`."""
+    import zlib
+    c = zlib.compressobj(6, zlib.DEFLATED, -15)
+    out = c.compress(data) + c.flush(zlib.Z_SYNC_FLUSH)
+    while len(out) - 4 < minlen:
+        out += b"\x00\x00\x00\xff\xff"          # empty stored block
+    assert out.endswith(b"\x00\x00\xff\xff")
+    d = zlib.decompressobj(-15)
+    assert d.decompress(out) == data
+    return out[:-4]
+
+
 def violations(deflate):
     """name -> function(session) -> bytes of the violating frame(s)."""
+    deflate = deflate is True
     v = {}
     v["rsv2"] = lambda s: s.frame(True, 1, b"x", rsv=0x20)
     v["rsv3"] = lambda s: s.frame(True, 2, b"x", rsv=0x10)
@@ -28,6 +42,8 @@ def violations(deflate):
         v["corrupt-deflate"] = lambda s: s.frame(True, 2, b"\xff\xff\xff\xff\xff", rsv=0x40)
         v["corrupt-deflate-fragmented"] = lambda s: s.frame(False, 1, b"\xff\xfe", rsv=0x40) + s.frame(True, 0, b"\xfd\xfc\xfb")
         v["inflates-over-limit"] = lambda s: s.frame(True, 2, wsh.Deflate().compress(b"z" * (LIMIT + 1)), rsv=0x40)
+        # larger than the limit on the wire (padded with empty stored blocks) although it inflates to 10 bytes
+        v["compressed-wire-over-limit"] = lambda s: s.frame(True, 2, padded_deflate(b"z" * 10, LIMIT + 40), rsv=0x40)
         v["inflates-far-over-limit"] = lambda s: s.frame(True, 2, wsh.Deflate().compress(b"z" * 100000), rsv=0x40)
     v["fragmented-ping"] = lambda s: s.frame(False, 9, b"a")
     v["fragmented-close"] = lambda s: s.frame(False, 8, b"")
@@ -62,6 +78,7 @@ def violations(deflate):
 
 def boundaries(deflate):
     """Messages exactly at the limit: must be delivered."""
+    deflate = deflate is True
     b = {}
     b["limit-single"] = (lambda s: s.frame(True, 2, b"m" * LIMIT), b"m" * LIMIT)
     b["limit-fragments"] = (lambda s: s.frame(False, 2, b"m" * 40) + s.frame(True, 0, b"n" * (LIMIT - 40)), b"m" * 40 + b"n" * (LIMIT - 40))
@@ -73,18 +90,18 @@ def boundaries(deflate):
 def valid_message(s, i, deflate):
     text = "msg%d-é" % i
     payload = text.encode()
-    if deflate:
+    if deflate is True:
         return s.frame(True, 1, s.deflate.compress(payload), rsv=0x40), text
     return s.frame(True, 1, payload), text
 
 
 def open_session(w, role, deflate, limit=LIMIT):
     if role == "server":
-        return wsh.ServerSession(w, offer="permessage-deflate" if deflate else None,
+        return wsh.ServerSession(w, offer="permessage-deflate" if deflate is True else None,
                                  compression_options={} if deflate else None,
                                  settings={"websocket_max_message_size": limit})
     return wsh.ClientSession(w, compression_options={} if deflate else None,
-                             response_ext="permessage-deflate" if deflate else None,
+                             response_ext="permessage-deflate" if deflate is True else None,
                              connect_kwargs={"max_message_size": limit})
 
 
@@ -181,7 +198,7 @@ def judge(o, boundary):
 class C15(Check):
     id = "C15"
     level = "model_checking"
-    rule = ("for each role {real server side, real client side} x {no extension, permessage-deflate}: ~45 violating frames "
+    rule = ("for each role {real server side, real client side} x {no extension, permessage-deflate, compression enabled locally but not negotiated}: ~45 violating frames "
             "(reserved bits on data/control frames, RSV1 without extension / on a continuation, fragmented or 126-byte "
             "control frames, orphan continuations, a data frame inside a fragmented message, invalid UTF-8 whole / "
             "truncated / across fragments / surrogate, opcodes 3-7 and 0xB-0xF, messages over max_message_size as one "
@@ -196,7 +213,8 @@ class C15(Check):
     assumptions = ["unmasked client frames / masked server frames and non-minimal length encodings are not in the statement's list (not injected)"]
 
     def partitions(self, tier):
-        return [(role, d, i, 8) for role in ("server", "client") for d in (False, True) for i in range(8)]
+        # d = "local": compression enabled on the Tornado side but the extension was not negotiated with this peer
+        return [(role, d, i, 8) for role in ("server", "client") for d in (False, True, "local") for i in range(8)]
 
     def run_partition(self, part, tier, st):
         role, deflate, sl, nsl = part
